@@ -35,7 +35,7 @@ EXPLANATION = ("body VCs of CombinedRegistry (union with first-one-wins by a loo
 
 
 def obligations(ctx):
-    return ctx.verify(FUNCTIONS) + lemmas(ctx)
+    return ctx.verify(FUNCTIONS) + ctx.part(lemmas)
 
 
 def lemmas(ctx):
